@@ -80,6 +80,76 @@ theorem eqVal_refl (S : LoaderSpec) (hr : readsExist S = true) :
             exact ihl (fun b hb => hl b (by simp [hb]))
         exact this cs.eqReads hsub
 
+/-- **Equality distinguishes structure.**  If two loaded values compare equal they have the same structure (`strip`): every
+    attribute an `__eq__` reads agrees, at every depth.  Contrapositive: loads of structurally different documents compare
+    unequal (or the comparison is not `True`). -/
+theorem eqVal_strip (S : LoaderSpec) : ∀ (n : Nat) (a b : Val), eqVal S n a b = .t → strip S n a = strip S n b := by
+  intro n
+  induction n with
+  | zero => intro a b h; simp [eqVal] at h
+  | succ n ih =>
+    intro a b h
+    cases a with
+    | atom x =>
+      cases b <;> simp only [eqVal] at h <;> try (cases h; done)
+      rename_i y
+      by_cases hxy : (x == y) = true
+      · have : x = y := by simpa using hxy
+        subst this; rfl
+      · simp [hxy] at h
+    | list xs =>
+      cases b <;> simp only [eqVal] at h <;> try (cases h; done)
+      rename_i ys
+      by_cases hl : (xs.length == ys.length) = true
+      · simp only [hl, if_true] at h
+        have : ∀ (l m : List Val), eqLists (eqVal S n) l m = .t → l.map (strip S n) = m.map (strip S n) := by
+          intro l
+          induction l with
+          | nil => intro m hm; cases m <;> simp [eqLists] at hm ⊢
+          | cons x xs' ihl =>
+            intro m hm
+            cases m with
+            | nil => simp [eqLists] at hm
+            | cons y ys' =>
+              simp only [eqLists] at hm
+              cases hxy : eqVal S n x y <;> simp only [hxy] at hm <;> try (cases hm; done)
+              simp only [List.map_cons, ih x y hxy, ihl ys' hm]
+        simp only [strip, this xs ys h]
+      · simp [hl] at h
+    | node c as =>
+      cases b <;> simp only [eqVal] at h <;> try (cases h; done)
+      rename_i d bs
+      by_cases hcd : (c == d) = true
+      · have hcd' : c = d := by simpa using hcd
+        subst hcd'
+        simp only [beq_self_eq_true, if_true] at h
+        cases hf : S.find c with
+        | none => simp [hf] at h
+        | some cs =>
+          simp only [hf] at h
+          simp only [strip, hf]
+          congr 1
+          have : ∀ (l : List Name), eqAttrs (eqVal S n) as bs l = .t →
+              l.filterMap (fun a => (getAttr as a).map (fun x => (a, strip S n x))) =
+              l.filterMap (fun a => (getAttr bs a).map (fun x => (a, strip S n x))) := by
+            intro l
+            induction l with
+            | nil => intro _; rfl
+            | cons a rest ihl =>
+              intro hl
+              simp only [eqAttrs] at hl
+              cases hx : getAttr as a with
+              | none => simp [hx] at hl
+              | some x =>
+                cases hy : getAttr bs a with
+                | none => simp [hx, hy] at hl
+                | some y =>
+                  simp only [hx, hy] at hl
+                  cases hxy : eqVal S n x y <;> simp only [hxy] at hl <;> try (cases hl; done)
+                  simp only [List.filterMap_cons, hx, hy, Option.map_some, ih x y hxy, ihl hl]
+          exact this cs.eqReads h
+      · simp [hcd] at h
+
 /-- Totality: comparing two well-formed values never raises. -/
 theorem eqVal_total (S : LoaderSpec) (hr : readsExist S = true) :
     ∀ (n : Nat) (v w : Val), wfVal S n v = true → wfVal S n w = true → eqVal S n v w ≠ .raise := by
